@@ -13,11 +13,11 @@ import (
 // (never below the quick count); the run says so in its notes.
 func tierN(c *mon.Ctx, quick, thorough int64) int64 {
 	if !c.Thorough() {
-		return quick
+		return c.N(quick, thorough) // honours the VERIF_DEV_N development cap
 	}
 	if d, err := strconv.Atoi(os.Getenv("VERIF_THOROUGH_DIV")); err == nil && d > 1 {
 		c.Note(fmt.Sprintf("thorough case counts divided by VERIF_THOROUGH_DIV=%d", d))
-		return max(quick, thorough/int64(d))
+		return c.N(quick, max(quick, thorough/int64(d)))
 	}
-	return thorough
+	return c.N(quick, thorough)
 }
